@@ -4,7 +4,7 @@ Import ListNotations.
 From Exmex.Model Require Import Base EvalBinary Lexer Flat Deep Convert.
 From Exmex.Spec Require Import RefSem.
 From Coq Require Import Sorted.
-From Exmex.Proofs Require Import CompileCorrect FlatPev DeepSem DeepCompile DeepParse C03Main C01Main C01Vars C11Main ConvertMain ToDeep ConvertCompose Accept WalkSim Vars Listings ParseListings LexSpaced ParseAny.
+From Exmex.Proofs Require Import CompileCorrect FlatPev DeepSem DeepCompile DeepParse C03Main C01Main C01Vars C11Main ConvertMain ToDeep ConvertCompose Accept WalkSim Vars Listings ParseListings LexSpaced ParseAny ParseComplete.
 Open Scope nat_scope.
 
 (* 1. The deep parser (recursive descent, one folded sub-expression per parenthesis group and per variable under unary
@@ -222,15 +222,68 @@ Definition ex_tb : optable :=
 Definition ex_chain : chain (D:=term) :=
   (AGroup [1] (ALeaf [] (LVar [97%N])) [(0, ALeaf [] (LVar [98%N]))],
    [(2, ALeaf [4; 5] (LVar [99%N])); (3, ALeaf [] (LNum (Lit [50%N]))); (0, ALeaf [] (LNum (Lit [51%N]))); (0, ALeaf [] (LNum (Lit [52%N])))]).
+(* 6c. Arbitrary (also sloppy) token lists that the parsers accept.  Outside PREFIX NOTATION (a parenthesis level that
+   starts with a binary-only operator, `op a b`, which both parsers accept: known finding F12) every token list the deep
+   parser accepts is the token rendering of a well-formed tree -- the operand/operator count of a level balances only
+   when operands and binary operators alternate --, so by 1 and 2 the flat parser accepts it too and both forms have the
+   same variables and R-equal values at every assignment. *)
+Theorem C03_accepted_token_lists_outside_prefix_notation_are_trees :
+  forall (D : Type) (C : carrier D) (tb : optable) (ts : list (token D)) (e : deepex D),
+  noprefix tb ts = true -> parse_deep_tokens C tb ts = Ok e ->
+  exists c : chain (D:=D), wf_chain tb c = true /\ flatten c = ts.
+Proof. exact @accepted_is_tree. Qed.
+
+Theorem C03_both_parsers_agree_on_accepted_token_lists_outside_prefix_notation :
+  forall (D : Type) (C : carrier D) (tb : optable) (R : D -> D -> Prop),
+  wf_table tb = true ->
+  (forall a, R a a) -> (forall a b, R a b -> R b a) -> (forall a b c, R a b -> R b c -> R a c) ->
+  (forall k a a' b b', R a a' -> R b b' -> R (binf C k a b) (binf C k a' b')) ->
+  (forall k a a', R a a' -> R (unf C k a) (unf C k a')) ->
+  (forall o, comm_of tb o = true -> forall a b c, R (binf C o (binf C o a b) c) (binf C o a (binf C o b c))) ->
+  forall (ts : list (token D)) (e : deepex D) (text : str) (vals : list D),
+  noprefix tb ts = true -> parse_deep_tokens C tb ts = Ok e -> length vals = length (dvars e) ->
+  exists fx vf vd,
+    parse_tokens_wo tb true text ts = Ok fx /\ fvars fx = dvars e /\
+    eval_flat C fx vals = Ok vf /\ eval_deep C e vals = Ok vd /\ R vf vd.
+Proof.
+  intros D C tb R Hwt Hr Hs Ht Hb Hu Ha ts e text vals Hnp He Hlen.
+  destruct (accepted_is_tree C tb ts e Hnp He) as (c & Hwf & <-).
+  pose proof (proj1 (parsed_any C tb _ e He)) as Hv. rewrite Hv in Hlen.
+  destruct (C03_flat_and_deep_agree D C tb R Hwt Hr Hs Ht Hb Hu Ha c text vals Hwf Hlen) as (fx & e' & vf & vd & F1 & F2 & F3 & F4 & F5 & F6).
+  assert (Ee : e' = e).
+  { unfold parse_deep_tokens in He. rewrite (rendering_accepted tb c Hwf) in He. cbn [bind] in He. rewrite F2 in He. cbn [bind] in He. inversion He; reflexivity. }
+  subst e'. exists fx, vf, vd. split; [|repeat split; assumption].
+  unfold parse_tokens_wo. rewrite (rendering_accepted tb c Hwf). cbn [bind]. exact F1.
+Qed.
+
+(* ... and INSIDE prefix notation the statement is false of the code (known finding F12): `* (1+2) - 3 4` is accepted by
+   both parsers; the flat form computes (1*(2+3))-4, the deep form ((1+2)*3)-4.  The witness is evaluated in the model
+   on the free term algebra; the check replays it on the implementation (correspondence, family sloppy-both-accept). *)
+Definition prefix_witness : list (token term) :=
+  [TOp 2; TOpen; TNum (Lit [49%N]); TOp 0; TNum (Lit [50%N]); TClose; TOp 1; TNum (Lit [51%N]); TNum (Lit [52%N])].
+Theorem C03_prefix_notation_refuted :
+  exists (tb : optable) (ts : list (token term)) (fx : flatex term) (e : deepex term) (vf vd : term),
+    parse_tokens_wo tb true [] ts = Ok fx /\ parse_deep_tokens term_carrier tb ts = Ok e /\
+    eval_flat term_carrier fx [] = Ok vf /\ eval_deep term_carrier e [] = Ok vd /\ vf <> vd.
+Proof.
+  exists ex_tb, prefix_witness.
+  destruct (parse_tokens_wo ex_tb true [] prefix_witness) as [fx| |] eqn:Ef; [|vm_compute in Ef; discriminate|vm_compute in Ef; discriminate].
+  destruct (parse_deep_tokens term_carrier ex_tb prefix_witness) as [e| |] eqn:Ed; [|vm_compute in Ed; discriminate|vm_compute in Ed; discriminate].
+  exists fx, e.
+  exists (Bin 1 (Bin 2 (Lit [49%N]) (Bin 0 (Lit [50%N]) (Lit [51%N]))) (Lit [52%N])), (Bin 1 (Bin 2 (Bin 0 (Lit [49%N]) (Lit [50%N])) (Lit [51%N])) (Lit [52%N])).
+  split; [reflexivity|]. split; [reflexivity|].
+  vm_compute in Ef. inversion Ef; subst fx. vm_compute in Ed. inversion Ed; subst e.
+  split; [vm_compute; reflexivity|]. split; [vm_compute; reflexivity|]. discriminate.
+Qed.
+
 Example C03_example_value :
   (do r <- dparse term_carrier ex_tb (S (length (flatten ex_chain))) None (flatten ex_chain) (find_parsed_vars (flatten ex_chain)) [] [] [];
    eval_deep term_carrier (fst r) [V 0; V 1; V 2])
   = Ok (Bin 0 (Bin 2 (Un 1 (Bin 0 (V 0) (V 1))) (Bin 3 (Un 4 (Un 5 (V 2))) (Lit [50%N]))) (Bin 0 (Lit [51%N]) (Lit [52%N]))).
 Proof. vm_compute. reflexivity. Qed.
 
-(* Outside these theorems (covered by the correspondence of this check): the VALUE of sloppy strings parsed by the DEEP
-   parser directly against the reference (the flat parse of every accepted token list and its conversions are covered by
-   4-6, the structure and conversions of every deep parse by 6b), and the operator
+(* Outside these theorems (covered by the correspondence of this check): sloppy strings in prefix notation outside the
+   class of F12 (6c covers every accepted token list without prefix notation), and the operator
    listings of folded and deep-parsed expressions beyond 7 (which names folding removes). *)
 Print Assumptions C03_deep_parse_is_reference.
 Print Assumptions C03_deep_token_entry_point.
@@ -241,6 +294,9 @@ Print Assumptions C03_deep_to_flat.
 Print Assumptions C03_any_number_of_round_trips.
 Print Assumptions C03_every_parsed_flat_expression_converts.
 Print Assumptions C03_every_parsed_deep_expression_converts.
+Print Assumptions C03_accepted_token_lists_outside_prefix_notation_are_trees.
+Print Assumptions C03_both_parsers_agree_on_accepted_token_lists_outside_prefix_notation.
+Print Assumptions C03_prefix_notation_refuted.
 Print Assumptions C03_listings_sorted_duplicate_free.
 Print Assumptions C03_listings_are_the_operators_of_the_expression.
 Print Assumptions C03_deep_to_flat_keeps_the_listings.
